@@ -8,7 +8,7 @@ from fv.sim import INT_MAX, INT_MIN, w
 VALUES = [0, 1, -1, 2, 3, -3, 7, -7, 10, -10, 46341, 65536, INT_MAX, INT_MIN, INT_MIN + 1]
 SMALL = [0, 1, -1, 3, -7]
 SHIFTS = [0, 1, 2, 3, 7, 10, 31]
-POWS = [0, 1, 2, 3, 5]
+POWS = [0, 1, 2, 3, 5, 20, 31, 32, 33, 40]
 OPS = list(ARITH) + list(CMP) + ["&&", "||"]
 
 
